@@ -20,8 +20,8 @@ Record case := mkcase {
   k_final : fsys                  (* observed directory after Close and the last clean-up *)
 }.
 
-(* bytes 0..255 of a printable string *)
-Definition nm (l : list nat) : name := map N.of_nat l.
+(* the bytes of a (printable ASCII) string *)
+Definition sn (s : String.string) : name := map Ascii.N_of_ascii (String.list_ascii_of_string s).
 
 (* ---- comparison of files: zero-length records leave no trace on disk *)
 Definition visible (cnt : content) : content := filter (fun r => 0 <? rlen r) cnt.
@@ -155,8 +155,8 @@ Definition delete_spec (c : config) (b0 b1 : name) (before : list name) (outs : 
   forallb (fun n => mem n before && is_matched c n && negb (name_eqb n (c_file c)) && (old n || beyond n)) onames &&
   (* the newest backups are kept *)
   forallb (fun n => if is_matched c n && surely_not_old n && within n then negb (mem n onames) else true) before &&
-  (* nothing else disappears *)
-  forallb (fun n => mem n after || mem n onames) before &&
+  (* nothing else disappears (a backup may be replaced by its .gz by a concurrent compress phase) *)
+  forallb (fun n => mem n after || mem n onames || mem (n ++ gzip_ext) after) before &&
   mem (c_file c) after.
 
 Definition spec_ok (k : case) : bool :=
